@@ -31,7 +31,7 @@ def run(ctx):
                         return out, {"K01_reproduced": 1}
         return out, {"K01_reproduced": 0}
     schedcheck.run(ctx, "C02", PROPS,
-                   [("hours", 150, 1500), ("core", 40, 400), ("subslot", 40, 400), ("alap", 40, 300), ("yearend", 40, 400), ("bookings", 40, 300), ("alapcore", 40, 400), ("midslot", 80, 600), ("grouphours", 60, 500)],
+                   [("hours", 150, 1500), ("core", 40, 400), ("subslot", 40, 400), ("alap", 40, 300), ("yearend", 40, 400), ("bookings", 40, 300), ("alapcore", 40, 400), ("midslot", 80, 600), ("grouphours", 60, 500), ("gstraddle", 60, 500)],
                    ["c02"],
                    ["the tz database (zoneinfo) is an oracle shared with the implementation",
                     "second-level containment is claimed for calendars aligned to the resolution only (K01 is a recorded known finding)",
